@@ -81,6 +81,20 @@ def contradictory(w):
     if ("FALSE",) in w:
         return True
     var = {}
+    # a value known to equal an enum aggregate (phi input) cannot be observed as another variant
+    vs = {a[1]: a[2] for a in w if a[0] == "variant"}
+    if vs:
+        for a in w:
+            if a[0] != "eq":
+                continue
+            for x, y in ((a[1], a[2]), (a[2], a[1])):
+                v = vs.get(x)
+                if v is None:
+                    continue
+                if y[0] == "agg" and y[1] == "adt" and y[2][1] != v and y[2][1] in ("Some", "None", "Ok", "Err"):
+                    return True
+                if y[0] == "call" and y[1] == "core::ops::try_trait::FromResidual::from_residual" and v in ("Some", "Ok"):
+                    return True
     for a in w:
         k = a[0]
         if k == "true" and ("false", a[1]) in w:
@@ -101,6 +115,9 @@ def contradictory(w):
         if k == "eq":
             if ("ne", a[1], a[2]) in w:
                 return True
+            for x, y in ((a[1], a[2]), (a[2], a[1])):
+                if y[0] == "const" and y[1] == "bool" and (("true", x) in w if not y[2] else ("false", x) in w):
+                    return True      # a join known to carry `false` is not observed `true` (and vice versa)
             x, y = a[1], a[2]
             if x[0] == "const" and y[0] == "const" and x[2] != y[2]:
                 return True
@@ -235,10 +252,13 @@ class Facts:
         out = []
         if X[0] == "call":
             key, args = X[1], X[3]
-            if name == "Some" and key in ("slice::get", "slice::get_mut") and len(args) == 2:
-                out.append(("lt", args[1], ("len", strip(args[0]))))
-            if name == "None" and key in ("slice::get", "slice::get_mut") and len(args) == 2:
-                out.append(("le", ("len", strip(args[0])), args[1]))
+            if key in ("slice::get", "slice::get_mut") and len(args) == 2 and name in ("Some", "None"):
+                from .core import mk_len
+                L = mk_len(strip(args[0]), self.an)       # canonical spelling of the container's length
+                if name == "Some":
+                    out.append(("lt", args[1], L))
+                else:
+                    out.append(("le", L, args[1]))
             if key.endswith("BTreeMap::get") or key.endswith("BTreeMap::get_mut"):
                 if name == "Some":
                     out.append(("contains", args[0], args[1]))
